@@ -139,6 +139,14 @@ def check_string(ctx, s, tree, rng, what, power="**"):
                 return None
             ctx.violation("failing-input", f"{what}: the parser rejects a string of the grammar ({type(e).__name__})", {"expression": s}, str(e)[:200], E.to_str_full(tree))
             return None
+    if not isinstance(got, (int, float)):
+        import sympy as _sp
+
+        if got.has(_sp.re, _sp.im, _sp.arg):
+            # sympy rewrites Abs of a symbolic power into exp/log/re/im/arg of its parts: a complex decomposition of a real-valued
+            # expression that the exact rational evaluator cannot follow (the same exclusion as in C12)
+            ctx.stats["complex_decomposition_skipped"] += 1
+            return None
     fr = E.sympy_fv(got)
     if not fr <= E.fv(tree):
         ctx.violation("failing-input", f"{what}: parsed expression mentions symbols {sorted(fr - E.fv(tree))} that are not in the string", {"expression": s}, str(got), E.to_str_full(tree))
